@@ -9,7 +9,7 @@
         open spec fn progresses() -> bool { false }
         open spec fn self_delimiting() -> bool { false }
         open spec fn dec_rel(b: Seq<u8>, v: &File, k: int) -> bool { true }
-        open spec fn dec_total() -> bool { false }
+        open spec fn dec_total(b: Seq<u8>) -> bool { false }
         /// the tag loop stops only at the end of the input, in front of something that is no tag, or in front of a tag that
         /// is not one of this struct's non-repeatable fields
         open spec fn dec_stop(rest: Seq<u8>) -> bool { rest.len() == 0 || (match <zvt_builder::encoding::Default as zvt_builder::encoding::Encoding<zvt_builder::Tag>>::spec_dec(rest) { None => true, Some((t, _)) => t.0 != 29u16 && t.0 != 30u16 && t.0 != 7936u16 && t.0 != 28u16 }) }
@@ -92,7 +92,7 @@
         open spec fn progresses() -> bool { false }
         open spec fn self_delimiting() -> bool { false }
         open spec fn dec_rel(b: Seq<u8>, v: &WriteData, k: int) -> bool { true }
-        open spec fn dec_total() -> bool { false }
+        open spec fn dec_total(b: Seq<u8>) -> bool { false }
         /// the tag loop stops only at the end of the input, in front of something that is no tag, or in front of a tag that
         /// is not one of this struct's non-repeatable fields
         open spec fn dec_stop(rest: Seq<u8>) -> bool { rest.len() == 0 || (match <zvt_builder::encoding::Default as zvt_builder::encoding::Encoding<zvt_builder::Tag>>::spec_dec(rest) { None => true, Some((t, _)) => t.0 != 45u16 }) }
@@ -157,7 +157,7 @@
         open spec fn progresses() -> bool { false }
         open spec fn self_delimiting() -> bool { false }
         open spec fn dec_rel(b: Seq<u8>, v: &WriteFile, k: int) -> bool { true }
-        open spec fn dec_total() -> bool { false }
+        open spec fn dec_total(b: Seq<u8>) -> bool { false }
         /// the tag loop stops only at the end of the input, in front of something that is no tag, or in front of a tag that
         /// is not one of this struct's non-repeatable fields
         open spec fn dec_stop(rest: Seq<u8>) -> bool { rest.len() == 0 || (match <zvt_builder::encoding::Default as zvt_builder::encoding::Encoding<zvt_builder::Tag>>::spec_dec(rest) { None => true, Some((t, _)) => true }) }
@@ -226,7 +226,7 @@
         open spec fn progresses() -> bool { false }
         open spec fn self_delimiting() -> bool { false }
         open spec fn dec_rel(b: Seq<u8>, v: &HostConfigurationData, k: int) -> bool { true }
-        open spec fn dec_total() -> bool { false }
+        open spec fn dec_total(b: Seq<u8>) -> bool { false }
         /// the tag loop stops only at the end of the input, in front of something that is no tag, or in front of a tag that
         /// is not one of this struct's non-repeatable fields
         open spec fn dec_stop(rest: Seq<u8>) -> bool { rest.len() == 0 || (match <zvt_builder::encoding::Default as zvt_builder::encoding::Encoding<zvt_builder::Tag>>::spec_dec(rest) { None => true, Some((t, _)) => true }) }
@@ -285,7 +285,7 @@
         open spec fn progresses() -> bool { false }
         open spec fn self_delimiting() -> bool { false }
         open spec fn dec_rel(b: Seq<u8>, v: &SystemInformation, k: int) -> bool { true }
-        open spec fn dec_total() -> bool { false }
+        open spec fn dec_total(b: Seq<u8>) -> bool { false }
         /// the tag loop stops only at the end of the input, in front of something that is no tag, or in front of a tag that
         /// is not one of this struct's non-repeatable fields
         open spec fn dec_stop(rest: Seq<u8>) -> bool { rest.len() == 0 || (match <zvt_builder::encoding::Default as zvt_builder::encoding::Encoding<zvt_builder::Tag>>::spec_dec(rest) { None => true, Some((t, _)) => t.0 != 65344u16 && t.0 != 65345u16 }) }
@@ -356,7 +356,7 @@
         open spec fn progresses() -> bool { false }
         open spec fn self_delimiting() -> bool { false }
         open spec fn dec_rel(b: Seq<u8>, v: &ChangeConfiguration, k: int) -> bool { true }
-        open spec fn dec_total() -> bool { false }
+        open spec fn dec_total(b: Seq<u8>) -> bool { false }
         /// the tag loop stops only at the end of the input, in front of something that is no tag, or in front of a tag that
         /// is not one of this struct's non-repeatable fields
         open spec fn dec_stop(rest: Seq<u8>) -> bool { rest.len() == 0 || (match <zvt_builder::encoding::Default as zvt_builder::encoding::Encoding<zvt_builder::Tag>>::spec_dec(rest) { None => true, Some((t, _)) => t.0 != 228u16 }) }
